@@ -35,6 +35,11 @@ func alignedModel(p *Parser, c *Call, r *CallResult) (*Model, int) {
 	if len(m.Events) != len(r.Events) {
 		return nil, n
 	}
+	if m.OK && r.ValueNil && !r.ErrNil {
+		// the same blocks in the same order, but the model matched and the parser
+		// did not: they disagree about matching somewhere (16.10)
+		return nil, n
+	}
 	return m, -1
 }
 
